@@ -33,6 +33,7 @@ import (
 	"sort"
 	"strings"
 	"sync"
+	"time"
 
 	"github.com/iden3/go-iden3-crypto/constants"
 	"github.com/iden3/go-merkletree-sql/v2"
@@ -669,6 +670,15 @@ func (d *drv) replaceLeaves(doc *docgen.Doc, hi int, base *obs) {
 		}
 	}
 	rng.Shuffle(len(ints), func(i, j int) { ints[i], ints[j] = ints[j], ints[i] })
+	var times []docgen.Leaf
+	for _, lf := range doc.Leaves {
+		if lf.Kind == "datetime" && !hasIndex(lf.DocPath) {
+			times = append(times, lf)
+		}
+	}
+	if len(times) > 0 && (doc.Features["int-doc"] || d.rng.Intn(4) == 0) {
+		d.timeSweep(doc, hi, times[d.rng.Intn(len(times))])
+	}
 	nSweep := d.cfg.Pick(1, 3)
 	if doc.Features["int-doc"] {
 		nSweep = len(ints)
@@ -868,6 +878,95 @@ func (d *drv) boundarySweep(doc *docgen.Doc, hi int, lf docgen.Leaf) {
 	}
 }
 
+// boundaryTimes: xsd:dateTime lexical forms around the limits of an int64 count of
+// nanoseconds (1677-09-21T00:12:43.145224192Z .. 2262-04-11T23:47:16.854775807Z), around the
+// years 1677/1678 and 2262/2263, the 2^31 / 2^32 second marks, the epoch, and for each of
+// them the instants 2^63 and 2^64 ns earlier / later (wrap-around partners).
+func boundaryTimes() []string {
+	e9 := big.NewInt(1_000_000_000)
+	p63 := new(big.Int).Lsh(big.NewInt(1), 63)
+	p64 := new(big.Int).Lsh(big.NewInt(1), 64)
+	var ns []*big.Int
+	addNS := func(z *big.Int) { ns = append(ns, z) }
+	for _, d := range []int64{-1, 0, 1} {
+		addNS(new(big.Int).Add(p63, big.NewInt(d)))
+		addNS(new(big.Int).Add(new(big.Int).Neg(p63), big.NewInt(d)))
+		addNS(big.NewInt(d))
+	}
+	for _, t := range []string{"1677-01-01T00:00:00Z", "1677-12-31T23:59:59.999999999Z", "1678-01-01T00:00:00Z", "2262-01-01T00:00:00Z",
+		"2262-04-12T00:00:00Z", "2262-06-01T00:00:00Z", "2262-12-31T23:59:59.999999999Z", "2263-01-01T00:00:00Z",
+		"2038-01-19T03:14:07Z", "2038-01-19T03:14:08Z", "2106-02-07T06:28:16Z", "1901-12-13T20:45:52Z", "2020-02-29T12:00:00.5Z"} {
+		tm, err := time.Parse(time.RFC3339Nano, t)
+		if err != nil {
+			continue
+		}
+		z := new(big.Int).Mul(big.NewInt(tm.Unix()), e9)
+		addNS(z.Add(z, big.NewInt(int64(tm.Nanosecond()))))
+	}
+	base := append([]*big.Int{}, ns...)
+	for _, z := range base {
+		for _, d := range []*big.Int{p63, p64} {
+			addNS(new(big.Int).Add(z, d))
+			addNS(new(big.Int).Sub(z, d))
+		}
+	}
+	seen := map[string]bool{}
+	var out []string
+	for _, z := range ns {
+		sec, nano := new(big.Int).DivMod(z, e9, new(big.Int))
+		if !sec.IsInt64() {
+			continue
+		}
+		tm := time.Unix(sec.Int64(), nano.Int64()).UTC()
+		if tm.Year() < 1 || tm.Year() > 9999 {
+			continue
+		}
+		s := tm.Format(time.RFC3339Nano)
+		if !seen[s] {
+			seen[s] = true
+			out = append(out, s)
+		}
+	}
+	return out
+}
+
+// timeSweep: one xsd:dateTime leaf takes every boundary instant in turn: all accepted
+// documents must have pairwise different roots (different instants within 2^69 ns have
+// different encodings: C04_time_injective); some variants go to the Coq tree model.
+func (d *drv) timeSweep(doc *docgen.Doc, hi int, lf docgen.Leaf) {
+	roots := map[string]string{}
+	docs := map[string]string{}
+	nTree := 0
+	for _, ts := range boundaryTimes() {
+		obj, err := parseDoc(doc.Bytes)
+		if err != nil {
+			return
+		}
+		sl, sib, ok := nav(obj, lf.DocPath)
+		if !ok || sib != 1 {
+			return
+		}
+		sl.set(ts)
+		v, _ := json.Marshal(obj)
+		o, _, ds := d.observe(v, hi)
+		d.rep.Count("boundary-time:" + o.Class)
+		if o.Class != "ok" {
+			continue
+		}
+		if prev, dup := roots[o.Root]; dup {
+			d.fail(fmt.Sprintf("the dateTime field at %v holding %s and holding %s gives the same root", lf.DocPath, prev, ts),
+				failInput{Kind: "pair-diff", Class: "c03-value-unbound", Doc: docs[prev], Other: string(v), Hasher: hi, Leaf: &lf, Siblings: 1, Note: "boundary " + prev + " vs " + ts})
+			return
+		}
+		roots[o.Root] = ts
+		docs[ts] = string(v)
+		if ds != nil && nTree < d.cfg.Pick(4, 10) && d.rng.Intn(6) == 0 {
+			nTree++
+			d.treeCase(ds, hi, failInput{Kind: "doc-dataset", Doc: string(v), Hasher: hi, Note: "boundary-time"}, o.Root, 1)
+		}
+	}
+}
+
 func hasIndex(path []string) bool {
 	for _, s := range path {
 		if len(s) > 0 && s[0] >= '0' && s[0] <= '9' {
@@ -933,6 +1032,11 @@ func (d *drv) intDoc() *docgen.Doc {
 		leaves = append(leaves, docgen.Leaf{DocPath: []string{term}, Raw: raw, Kind: "int-string",
 			Fact: docgen.Fact{Pattern: V + term, Value: "int:" + raw, Datatype: dt}})
 	}
+	ctx["t0"] = map[string]any{"@id": V + "t0", "@type": docgen.XSD + "dateTime"}
+	t0 := time.Unix(int64(d.rng.Intn(2_000_000_000)), 0).UTC().Format(time.RFC3339)
+	obj["t0"] = t0
+	leaves = append(leaves, docgen.Leaf{DocPath: []string{"t0"}, Raw: t0, Kind: "datetime",
+		Fact: docgen.Fact{Pattern: V + "t0", Value: "time:?", Datatype: docgen.XSD + "dateTime"}})
 	obj["@context"] = ctx
 	doc := &docgen.Doc{Obj: obj, Leaves: leaves, Features: map[string]bool{"int-doc": true}, Expect: "ok"}
 	doc.Bytes, _ = json.Marshal(obj)
